@@ -955,6 +955,24 @@ class Summary(object):
             value = st.value
             if value is None:
                 return pc
+            if isinstance(st, ast.Assign) and isinstance(value, ast.DictComp) and len(value.generators) == 1 and len(st.targets) == 1 and isinstance(st.targets[0], ast.Name) \
+                    and not getattr(st, '_dc_done', False):
+                # name = {k: v for x in it if c}   ==   name = {}; for x in it: if c: name[k] = v
+                gen = value.generators[0]
+                tname = st.targets[0].id
+                init = ast.Assign(targets=[ast.Name(id=tname, ctx=ast.Store())], value=ast.Dict(keys=[], values=[]), lineno=st.lineno)
+                init._dc_done = True
+                store = ast.Assign(targets=[ast.Subscript(value=ast.Name(id=tname, ctx=ast.Load()), slice=value.key, ctx=ast.Store())], value=value.value, lineno=st.lineno)
+                body = [store]
+                if gen.ifs:
+                    test = gen.ifs[0] if len(gen.ifs) == 1 else ast.BoolOp(op=ast.And(), values=list(gen.ifs))
+                    body = [ast.If(test=test, body=[store], orelse=[], lineno=st.lineno)]
+                lp = ast.For(target=gen.target, iter=gen.iter, body=body, orelse=[], lineno=st.lineno)
+                for n_ in (init, lp):
+                    ast.fix_missing_locations(n_)
+                self._dictcomp_names = getattr(self, '_dictcomp_names', set()) | {tname}
+                pc = self.stmt(init, env, pc, fr)
+                return self.stmt(lp, env, pc, fr)
             value = self.prep(value, env, pc, fr)
             pc = conj(pc, self.after_call_pc)
             self.record_calls(value, env, pc, fr)
@@ -1083,9 +1101,106 @@ class Summary(object):
             after = disj(after, conj(pc, broke))
         return after
 
+    def generator_loop(self, st, fr):
+        """`for x in gen(args): BODY` over a generator function that may be inlined: the generator's body with every `yield e` replaced by
+        `x = e; BODY` (and `yield from it` by `for x in it: BODY`), its locals renamed apart and its parameters bound to the arguments.
+        Exact when BODY has no break/continue that binds to this loop and the generator has no return."""
+        if st.orelse or not isinstance(st.iter, ast.Call):
+            return None
+        nm = P.call_name(st.iter)
+        if not nm:
+            return None
+        f = None
+        if nm.startswith('self.') and '.' not in nm[5:] and nm[5:] in self.methods:
+            f = self.methods[nm[5:]]
+        elif self.inline_module_funcs and '.' not in nm and nm in fr.mod.functions:
+            f = fr.mod.functions[nm]
+        if f is None or f.name in self.opaque or f.name in fr.stack or (self.inline_only is not None and f.name not in self.inline_only):
+            return None
+        body_nodes = list(P.walk_no_nested(f))
+        if not any(isinstance(x, (ast.Yield, ast.YieldFrom)) for x in body_nodes) or any(isinstance(x, ast.Return) for x in body_nodes):
+            return None
+        if f.args.vararg or f.args.kwarg or st.iter.keywords or any(isinstance(a, ast.Starred) for a in st.iter.args):
+            return None
+
+        def binds_here(stmts):
+            for s_ in stmts:
+                if isinstance(s_, (ast.Break, ast.Continue)):
+                    return True
+                if isinstance(s_, (ast.For, ast.While, ast.AsyncFor, ast.FunctionDef, ast.ClassDef)):
+                    continue
+                for fld in ('body', 'orelse', 'finalbody', 'handlers'):
+                    sub = getattr(s_, fld, None)
+                    if sub:
+                        if fld == 'handlers':
+                            sub = [x for h in sub for x in h.body]
+                        if binds_here(sub):
+                            return True
+            return False
+        if binds_here(st.body):
+            return None
+        params = [a.arg for a in f.args.args]
+        if params and params[0] in ('self', 'cls') and nm.startswith('self.'):
+            params = params[1:]
+        if len(params) != len(st.iter.args):
+            return None
+        self.tmp += 1
+        suffix = '__g%d' % self.tmp
+        local = set(params)
+        for x in body_nodes:
+            if isinstance(x, ast.Name) and isinstance(x.ctx, ast.Store):
+                local.add(x.id)
+
+        class Ren(ast.NodeTransformer):
+            def visit_Name(self_, n):
+                if n.id in local:
+                    return ast.copy_location(ast.Name(id=n.id + suffix, ctx=n.ctx), n)
+                return n
+        import copy as _copy
+
+        def conv(stmts):
+            out = []
+            for s_ in stmts:
+                if isinstance(s_, ast.Expr) and isinstance(s_.value, ast.Yield):
+                    val = Ren().visit(_copy.deepcopy(s_.value.value)) if s_.value.value is not None else ast.Constant(value=None)
+                    out.append(ast.copy_location(ast.Assign(targets=[_copy.deepcopy(st.target)], value=val, lineno=s_.lineno), s_))
+                    out.extend(_copy.deepcopy(st.body))
+                elif isinstance(s_, ast.Expr) and isinstance(s_.value, ast.YieldFrom):
+                    out.append(ast.copy_location(ast.For(target=_copy.deepcopy(st.target), iter=Ren().visit(_copy.deepcopy(s_.value.value)), body=_copy.deepcopy(st.body), orelse=[],
+                                                         lineno=s_.lineno), s_))
+                elif any(isinstance(x, (ast.Yield, ast.YieldFrom)) for x in ast.walk(s_)):
+                    c2 = _copy.copy(s_)
+                    ok_ = True
+                    for fld in ('body', 'orelse', 'finalbody'):
+                        if getattr(s_, fld, None):
+                            setattr(c2, fld, conv(getattr(s_, fld)))
+                    for fld in ('test', 'iter', 'target'):
+                        if getattr(s_, fld, None) is not None:
+                            if any(isinstance(x, (ast.Yield, ast.YieldFrom)) for x in ast.walk(getattr(s_, fld))):
+                                ok_ = False
+                            setattr(c2, fld, Ren().visit(_copy.deepcopy(getattr(s_, fld))))
+                    if not ok_ or isinstance(s_, (ast.Try, ast.With)):
+                        raise ValueError('yield in an unsupported position')
+                    out.append(c2)
+                else:
+                    out.append(Ren().visit(_copy.deepcopy(s_)))
+            return out
+        try:
+            new = conv([x for x in f.body if not (isinstance(x, ast.Expr) and isinstance(x.value, ast.Constant))])
+        except ValueError:
+            return None
+        pre = [ast.Assign(targets=[ast.Name(id=p_ + suffix, ctx=ast.Store())], value=_copy.deepcopy(a_), lineno=st.lineno) for p_, a_ in zip(params, st.iter.args)]
+        for n_ in pre + new:
+            ast.fix_missing_locations(n_)
+        self.inlined.add(f.name)
+        return pre + new
+
     def loop(self, st, env, pc, fr):
         is_for = isinstance(st, (ast.For, ast.AsyncFor))
         if is_for:
+            gl = self.generator_loop(st, fr)
+            if gl is not None:
+                return self.block(gl, env, pc, fr)
             it = self.prep(st.iter, env, pc, fr)
             self.record_calls(it, env, pc, fr)
             ia = self.alts(it, env, pc)
